@@ -339,3 +339,7 @@ def run(ctx, cfg=CFG):
     published = r1_publish(ctx, cfg)
     r3_in_place(ctx, cfg, published)
     r5_loaders(ctx, cfg)
+
+
+from .selftest import for_families as _ff  # noqa: E402
+selftest = _ff(['publish'])
